@@ -16,13 +16,14 @@ import time
 
 import vlib
 
-PROPS = {"C07": "c07", "C08": "c08", "C09": "c09", "C10": "c10", "C19": "c19"}
+PROPS = {"C07": "c07", "C08": "c08", "C09": "c09", "C10": "c10", "C19": "c19", "C15": "c15"}
 PINS = {
     "C07": ["C07_no_early"],
     "C08": ["C08_on_time"],
     "C09": ["C09_next_expiry"],
     "C10": ["C10_keys_exact"],
     "C19": ["C19_order"],
+    "C15": [],      # the C15 theorems live in the runtime layer (coq/R); here: Core::now observed on real traces at sub-tick steps
 }
 NS = 10 ** 9
 STEP = 16384
@@ -198,9 +199,15 @@ class Gen:
                         ops.append("ne")
                         self.count("op:runne")
                     # the generator cannot know where time is now; later instants are relative to a conservative guess
-            elif c < 0.82:
+            elif c < (0.90 if focus == "C15" else 0.82):
                 ops.append("now")
                 self.count("op:now")
+                if focus == "C15":
+                    t = cur + r.choice([1, 2, 5000, STEP - 1, STEP, STEP + 1, -1, 0, 3 * STEP, NS])
+                    ops.append("run %d" % t)
+                    cur = max(cur, t)
+                    ops.append("now")
+                    self.count("op:run-subtick")
             elif c < (0.87 if focus == "C19" else 0.835):
                 self.defers = getattr(self, "defers", 1000000) + 1
                 ops.append("defer %d" % self.defers)
